@@ -69,15 +69,24 @@
 (*           in the Node shape below), and for round-trip cases the tree   *)
 (*           the string was printed from;                                  *)
 (*   Trees : sequence of trees to be printed (PrintSpec).                  *)
-(* TraceSpec runs the machine over every case's tokens and compares;       *)
-(* PrintSpec emits Unparse(tree) for every tree.                             *)
+(* TraceSpec runs the machine over every case's tokens and compares: one   *)
+(* PrintT(<<"HV", case, "MISMATCH", verdict, tree>>) per disagreeing case, *)
+(* one <<"HV", case, "SPEC", ...>> if this module fails to reproduce its   *)
+(* own tree on a round-trip case, and per chunk of the batch one           *)
+(* <<"HV", "CHUNK", chunk, tally, acts>> with the number of cases          *)
+(* evaluated / agreeing / dontcare / round trips closed and how often each *)
+(* action of the machine was taken.  PrintSpec emits Unparse(tree) for     *)
+(* every tree.  Precedence.cfg runs the built-in batch at the end of this  *)
+(* file (upstream parser tests and one example per rule).                  *)
 (***************************************************************************)
 EXTENDS Naturals, Sequences, TLC
 
 CONSTANTS Cases, Trees, NChunks
 
-(* TLC evaluates a zero-argument constant definition once and keeps the value; a CONSTANT that the cfg    *)
-(* replaces by a definition (Cases <- BatchCases) is re-evaluated at every use.  Hence these two.        *)
+(* The batch is only reached through these two definitions and, per case, copied into the state variable  *)
+(* `toks` (TLC evaluates a constant definition once and keeps the value, except under -coverage, where a   *)
+(* batch of thousands of cases would be rebuilt at every use: -coverage is run on the built-in batch only; *)
+(* on generated batches the machine counts its own actions in `acts`).                                     *)
 TheCases == Cases
 TheTrees == Trees
 
